@@ -61,14 +61,10 @@ struct Scenario {
 // handled.  Generated runs skip these pairs (counted); their witnesses are replayed with strict=1.
 struct Known { const char *id; const char *scenario; int side; /*0 library, 1 storage engine*/ };
 static const Known KNOWN[] = {
-    {"F-OOM-CRASH", "cif_value_clone(new)", 0}, {"F-OOM-CRASH", "cif_value_clone(into existing)", 0}, {"F-OOM-CRASH", "cif_value_insert_element_at", 0},
-    {"F-OOM-CRASH", "cif_value_set_element_at", 0}, {"F-OOM-CRASH", "cif_value_set_item_by_key(new)", 0}, {"F-OOM-CRASH", "cif_value_set_item_by_key(existing, respelled)", 0},
-    {"F-OOM-CRASH", "cif_packet_create", 0}, {"F-OOM-CRASH", "cif_packet_set_item(new)", 0}, {"F-OOM-CRASH", "cif_packet_set_item(existing, respelled)", 0},
-    {"F-OOM-CRASH", "cif_parse(syntax only)", 0}, {"F-OOM-CRASH", "cif_parse(new cif)", 0}, {"F-OOM-CRASH", "cif_parse(into existing)", 0}, {"F-OOM-CRASH", "cif_pktitr_next_packet(new)", 0},
-    {"F-OOM-CRASH", "cif_pktitr_next_packet(reuse)", 0}, {"F-OOM-CRASH", "cif_loop_get_packets", 0}, {"F-OOM-CRASH", "cif_walk", 0}, {"F-OOM-CRASH", "cif_write(2.0)", 0}, {"F-OOM-CRASH", "cif_write(1.1)", 0},
-    {"F-OOM-LEAK", "cif_container_get_all_loops", 0}, {"F-OOM-LEAK", "cif_loop_get_names", 0}, {"F-OOM-LEAK", "cif_loop_set_category", 1},
-    {"F-OOM-CODE", "cif_container_get_value(scalar)", 0}, {"F-OOM-CODE", "cif_container_get_value(scalar)", 1}, {"F-OOM-CODE", "cif_container_get_value(looped)", 0},
-    {"F-OOM-CODE", "cif_container_get_value(looped)", 1}, {"F-OOM-CODE", "cif_pktitr_next_packet(new)", 1}, {"F-OOM-CODE", "cif_pktitr_next_packet(reuse)", 1},
+    // library-side pairs: none left (F-OOM-CRASH, library-side F-OOM-LEAK and F-OOM-CODE were repaired in /repo)
+    {"F-OOM-LEAK", "cif_loop_set_category", 1},
+    {"F-OOM-CODE", "cif_container_get_value(scalar)", 1}, {"F-OOM-CODE", "cif_container_get_value(looped)", 1},
+    {"F-OOM-CODE", "cif_pktitr_next_packet(new)", 1}, {"F-OOM-CODE", "cif_pktitr_next_packet(reuse)", 1},
     {"F-OOM-SQLITE-TX", "cif_walk", 1}, {"F-OOM-SQLITE-TX", "cif_write(2.0)", 1}, {"F-OOM-SQLITE-TX", "cif_write(1.1)", 1}, {"F-OOM-SQLITE-TX", "cif_loop_get_packets", 1}, {"F-OOM-SQLITE-TX", "cif_pktitr_abort", 1},
     {"F-OOM-SQLITE-PARTIAL", "cif_container_get_all_loops", 1}, {"F-OOM-SQLITE-PARTIAL", "cif_loop_get_names", 1},
 };
